@@ -224,7 +224,9 @@ class Interp:
         k = v[0]
         if k == "adt":
             if v[3] is not None:
-                return v[3][f] if f < len(v[3]) else U("field%d" % f)
+                if f < len(v[3]):
+                    return v[3][f]
+                return U("%s.%d" % (v[4], f)) if v[4] else U("field%d" % f)
             return ("pj", ("adt", v[1], v[2], None, v[4]), f) if v[4] is None else U("%s.%s.%d" % (v[4], v[2], f))
         if k == "tup":
             return v[1][f] if f < len(v[1]) else U("field%d" % f)
@@ -300,10 +302,10 @@ class Interp:
                     fields.append(U("field"))
                 fields[f] = self.write_into(st, fields[f], rest, val, fid)
                 return ("tup", tuple(fields))
-            # unknown aggregate: materialise as a tuple-like record
+            # unknown aggregate: materialise as a partial record that remembers where it came from
             fields = [self.field(base, i) for i in range(f + 1)]
             fields[f] = self.write_into(st, fields[f], rest, val, fid)
-            return ("tup", tuple(fields))
+            return ("adt", "?record", "?", tuple(fields), _origin(base) if base[0] in ("u", "pj", "call") else None)
         if isinstance(e, dict) and "dc" in e:
             return self.write_into(st, base, rest, val, fid)
         if isinstance(e, dict) and ("idx" in e or "cidx" in e):
